@@ -91,7 +91,7 @@ pub fn lookup<'a>(names: &'a [String], entries: &[Entry], src_line: u32, src_col
 }
 
 pub fn self_check(rng: &mut crate::rng::Rng) {
-    for _ in 0..2000 {
+    for _ in 0..(if cfg!(miri) { 10 } else { 2000 }) {
         let mut entries: Vec<Entry> = vec![];
         let (mut l, mut c) = (rng.range(1, 3) as u32, rng.below(5) as u32);
         for _ in 0..rng.range_usize(0, 12) {
